@@ -276,6 +276,41 @@ func run(c *fw.Ctx) {
 		}
 		c.Count("family_F2_complete", 1)
 	}
+	// FA: AUTH + AUTHCALL (P014 opcodes with real arguments: harness-signed EIP-3074 message) as the
+	// effect of the root, of a depth-2 frame of every kind x outcome, and of a depth-3 frame
+	fa := func() {
+		leaf := nonRootSpecs([]int{kCall, kDelegate, kStatic, kCreate}, []int{oReturn, oRevert}, []int{eNone})
+		if c.Thorough() {
+			leaf = ko
+		}
+		nko, nl, nv := int64(len(ko)), int64(len(leaf)), int64(nAuthVariants)
+		auth := func(s spec, a int64) *Node { return &Node{K: s.K, O: s.O, E: eAuth, A: int(a)} }
+		total := 4*nv + 4*nko*nv + 2*nko*nl*nv
+		for t := int64(0); t < total; t++ {
+			tt := t
+			if !en.tree(func() *Node {
+				a := tt % nv
+				tt /= nv
+				switch {
+				case tt < 4:
+					return auth(plainRoots[tt], a)
+				case tt < 4+4*nko:
+					tt -= 4
+					return mk(plainRoots[tt%4], auth(ko[tt/4], a))
+				default:
+					tt -= 4 + 4*nko
+					l := leaf[tt%nl]
+					tt /= nl
+					return mk(plainRoots[tt%2], mk(ko[tt/2], auth(l, a)))
+				}
+			}) {
+				c.Cap("frame-trees: family FA not finished (time)")
+				return
+			}
+		}
+		c.Count("family_FA_complete", 1)
+	}
+	fa()
 	rootOut := []int{oReturn, oRevert, oInvalid, oOOG}
 	if c.Thorough() {
 		f1()
